@@ -332,6 +332,8 @@ func RunExpr(ctx *Task, node *ast.Node) *errchain.PlError {
 
 	// TODO
 	case ast.TypeAttrExpr:
+		// yields no value: do not leave the value of an earlier expression behind
+		ctx.Regs.Reset()
 		return nil
 
 	case ast.TypeBoolLiteral:
@@ -1034,6 +1036,8 @@ func changeListOrMapValue(ctx *Task, obj any, index []*ast.Node, val V) *errchai
 }
 
 func RunCallExpr(ctx *Task, expr *ast.CallExpr) *errchain.PlError {
+	// the register holds only what the callee returns (nothing, if it returns nothing)
+	ctx.Regs.Reset()
 	if funcCall, ok := ctx.GetFn(expr.Name); ok {
 		if err := funcCall(ctx, expr); err != nil {
 			return err
